@@ -331,6 +331,29 @@ impl Mach {
         }
     }
 
+    /// Invoke the given (possibly shared) interpreter object once on `line`
+    pub fn step_shared(&mut self, interp: &Interpreter, idx: usize, ictx: &mut InterpreterContext, line: &str) -> StepObs {
+        let vm = &mut self.vm;
+        let r = catch_unwind(AssertUnwindSafe(|| match interp.parse(idx, vm, ictx, line) {
+            Ok(s) => Ok(s),
+            Err(e) => Err(format!("{:?}", e)),
+        }));
+        let (out, arg, err): (&'static str, u32, String) = match r {
+            Err(p) => ("PANIC", 0, panic_text(&p)),
+            Ok(Err(e)) => ("ERR", 0, e),
+            Ok(Ok(s)) => match s {
+                State::HALT => ("HALT", 0, String::new()),
+                State::PRINT => ("PRINT", 0, String::new()),
+                State::JMP(n) => ("JMP", n as u32, String::new()),
+                State::NEXT => ("NEXT", 0, String::new()),
+                State::INT(n) => ("INT", n as u32, String::new()),
+                State::REPEAT => ("REPEAT", 0, String::new()),
+            },
+        };
+        let memw = self.diff();
+        StepObs { out, arg, regs: read_regs(&self.vm), flags: self.vm.arch.flag, memw, stack: ictx.call_stack.clone(), err }
+    }
+
     /// Invoke without taking the memory diff (register-only sweeps); returns (out, arg)
     pub fn step_fast(&mut self, idx: usize, ictx: &mut InterpreterContext, line: &str) -> (&'static str, u32) {
         let vm = &mut self.vm;
